@@ -24,6 +24,7 @@ import (
 
 type realEv struct {
 	kind    string // rst ga ack eof other
+	data    [8]byte
 	code    uint32
 	ack     bool
 	fatal   bool
@@ -110,7 +111,7 @@ func execReal(op string) string {
 				evc <- realEv{kind: "ga", code: uint32(f.ErrCode)}
 			case *bfe_http2.PingFrame:
 				if f.IsAck() {
-					evc <- realEv{kind: "ack"}
+					evc <- realEv{kind: "ack", data: f.Data}
 				}
 			}
 		}
@@ -127,6 +128,8 @@ func execReal(op string) string {
 	var rst []uint32
 	ga := int64(-1)
 	dead := false
+	var seq uint64
+	var want [8]byte
 	drainUntilAck := func() bool { // false: connection ended
 		timeout := time.After(30 * time.Second)
 		for {
@@ -134,7 +137,9 @@ func execReal(op string) string {
 			case e := <-evc:
 				switch e.kind {
 				case "ack":
-					return true
+					if e.data == want { // the ACK of our own round trip (a PING event of the script gets another one)
+						return true
+					}
 				case "rst":
 					rst = append(rst, e.code)
 				case "ga":
@@ -156,7 +161,9 @@ func execReal(op string) string {
 		if dead {
 			return false
 		}
-		cl.Ping(0, false)
+		seq++
+		want = [8]byte{'q', byte(seq >> 48), byte(seq >> 40), byte(seq >> 32), byte(seq >> 24), byte(seq >> 16), byte(seq >> 8), byte(seq)}
+		cl.PingWith(want)
 		return drainUntilAck()
 	}
 	quiesce := func() {
